@@ -5,6 +5,7 @@ NEXT Next
 CONSTANTS
   AllowDupStart = FALSE
   AllowSilentInit = FALSE
+  AllowRestartRace = FALSE
   AllowDoubleError = FALSE
   SInsts = {}
   SIds = {}
